@@ -330,6 +330,16 @@ theorem gtB_scale (hk : 0 < k) (a b : ℝ) : gtB (k * a) (k * b) = gtB a b := by
 theorem leB_scale (hk : 0 < k) (a b : ℝ) : leB (k * a) (k * b) = leB a b := by
   unfold leB; exact decide_eq_decide.mpr (mul_le_mul_iff_right₀ hk)
 
+theorem eqB_scale (hk : 0 < k) (a b : ℝ) : eqB (k * a) (k * b) = eqB a b := by
+  unfold eqB
+  exact decide_eq_decide.mpr (by rw [mul_le_mul_iff_right₀ hk, mul_le_mul_iff_right₀ hk])
+
+/-- on ℝ the order form of `==` is equality -/
+theorem eqB_iff (a b : ℝ) : eqB a b = true ↔ a = b := by
+  unfold eqB
+  rw [decide_eq_true_iff]
+  exact ⟨fun h => le_antisymm h.1 h.2, fun h => ⟨h.le, h.ge⟩⟩
+
 /-- comparison functions that do not see a common positive factor -/
 def ScaleInv (k : ℝ) (c : ℝ → ℝ → Bool) : Prop := ∀ a b, c (k * a) (k * b) = c a b
 
@@ -365,6 +375,21 @@ theorem rightDescent_scale (hk : 0 < k) (n : ℕ) (s : ℕ → ℝ) (idx : ℕ) 
     rightDescent n (sc k s) idx = rightDescent n s idx := by
   unfold rightDescent sc
   rw [walkR_scale (gtB_scale hk)]
+
+/-- the plateau walks of `_get_psd_tone` (equality with the peak value) do not see a positive factor -/
+theorem topL_scale (hk : 0 < k) (s : ℕ → ℝ) (i p : ℕ) :
+    topL (sc k s) (sc k s i) p = topL s (s i) p := by
+  unfold sc
+  induction p with
+  | zero => rfl
+  | succ p ih => simp only [topL, ih, eqB_scale hk]
+
+theorem topR_scale (hk : 0 < k) (n : ℕ) (s : ℕ → ℝ) (i f p : ℕ) :
+    topR n (sc k s) (sc k s i) f p = topR n s (s i) f p := by
+  unfold sc
+  induction f generalizing p with
+  | zero => rfl
+  | succ f ih => simp only [topR, ih, eqB_scale hk]
 
 theorem foldl_add_scale (k : ℝ) (l : List ℝ) (a : ℝ) :
     (l.map (k * ·)).foldl (fun acc v => acc + v) (k * a) = k * l.foldl (fun acc v => acc + v) a := by
@@ -405,8 +430,8 @@ def scTone (k : ℝ) (t : Tone ℝ) : Tone ℝ := ⟨t.lpos, t.rpos, t.freq, k *
 theorem getTone_scale (hk : 0 < k) (n : ℕ) (s : ℕ → ℝ) (f : ℕ) :
     getTone n (sc k s) f = scTone k (getTone n s f) := by
   unfold getTone scTone
-  simp only [locatePeak_scale hk, leftDescent_scale hk, rightDescent_scale hk, lobeSum_scale, lobeDot_scale,
-    mul_div_mul_left _ _ hk.ne']
+  simp only [locatePeak_scale hk, topL_scale hk, topR_scale hk, leftDescent_scale hk, rightDescent_scale hk, lobeSum_scale,
+    lobeDot_scale, mul_div_mul_left _ _ hk.ne']
 
 theorem toneAt_scale (hk : 0 < k) (rnd : ℝ → ℤ) (n : ℕ) (s : ℕ → ℝ) (f : ℝ) :
     toneAt rnd n (sc k s) f = scTone k (toneAt rnd n s f) := by
@@ -659,6 +684,17 @@ theorem walkR_terminated (c : ℝ → ℝ → Bool) (n : ℕ) (s : ℕ → ℝ) 
     · exact ih (p + 1) (by omega)
     · assumption
 
+/-- … and the same for the plateau walk: when `topR` returns, `(rtop < n-1) && (spec[rtop+1] == v)` is false -/
+theorem topR_terminated (n : ℕ) (s : ℕ → ℝ) (v : ℝ) (f p : ℕ) (h : n ≤ p + f) :
+    ¬ (topR n s v f p + 1 < n ∧ eqB (s (topR n s v f p + 1)) v = true) := by
+  induction f generalizing p with
+  | zero => simp only [topR]; omega
+  | succ f ih =>
+    simp only [topR]
+    split
+    · exact ih (p + 1) (by omega)
+    · assumption
+
 /-- a 7-bin spectrum with a lobe at bin 1 and one at bin 4 -/
 def spec7 : ℕ → ℝ := ofList [1, 6, 1, 1, 4, 1, 1]
 /-- `(int)std::round` on ℝ (values ≥ 0) -/
@@ -676,7 +712,7 @@ theorem spec7_first : firstTone rndR 7 spec7 = ⟨0, 2, 1 / 7, 8⟩ := by
   have hr : rndR ((1 : ℝ) / 7 * 7) = 1 := by
     simp [rndR]; norm_num
   simp only [firstTone, toneAt, ha, fn_ofNat, Nat.cast_one, Nat.cast_ofNat, hr, clampBin]
-  norm_num [getTone, locatePeak, walkL, walkR, gtB, ltB, hv, leftDescent, rightDescent, lobeSum, lobeDot, Noise.sum,
+  norm_num [getTone, locatePeak, walkL, walkR, topL, topR, eqB, gtB, ltB, hv, leftDescent, rightDescent, lobeSum, lobeDot, Noise.sum,
     List.range', List.range'TR, List.range'TR.go]
 
 /-- … and with that lobe zeroed, the search at twice the fundamental climbs to bin 4: lobe `[2, 5]`, power 6 -/
@@ -687,8 +723,21 @@ theorem spec7_second :
     simp [rndR]; norm_num
   have h2 : Int.toNat 2 = 2 := rfl
   simp only [toneAt, fn_ofNat, Nat.cast_ofNat, hr, clampBin]
-  norm_num [h2, getTone, locatePeak, walkL, walkR, gtB, ltB, hv, leftDescent, rightDescent, lobeSum, lobeDot, Noise.sum,
+  norm_num [h2, getTone, locatePeak, walkL, walkR, topL, topR, eqB, gtB, ltB, hv, leftDescent, rightDescent, lobeSum, lobeDot, Noise.sum,
     List.range', List.range'TR, List.range'TR.go, setRange]
+
+/-- a tone midway between two bins: two equal top bins -/
+def spec4 : ℕ → ℝ := ofList [1, 4, 4, 1]
+
+theorem spec4_vals : spec4 0 = 1 ∧ spec4 1 = 4 ∧ spec4 2 = 4 ∧ spec4 3 = 1 := by
+  simp [spec4, ofList]
+
+/-- concrete evaluation at a two-bin plateau: the WHOLE lobe `[0, 3]` is integrated (power 10, centroid bin 3/2),
+not the half `[0, 1]` at which the strict descents stop -/
+theorem spec4_tone : getTone 4 spec4 1 = ⟨0, 3, 3 / 8, 10⟩ := by
+  have hv := spec4_vals
+  norm_num [getTone, locatePeak, walkL, walkR, topL, topR, eqB, gtB, ltB, hv, leftDescent, rightDescent, lobeSum, lobeDot, Noise.sum,
+    List.range', List.range'TR, List.range'TR.go]
 
 /-- the invariance theorems instantiated at that spectrum (factor 4 = a 6 dB louder signal) -/
 example : snrPsd rndR 7 (sc 4 spec7) 2 false = snrPsd rndR 7 spec7 2 false := snrPsd_scale (by norm_num) _ _ _ _ _
